@@ -1,6 +1,6 @@
 """C16: DECODE-NOPANIC, DECODE-TAKE-ONCE, DECODE-RESULT-UNWRAP over the decode closure."""
 from vlib.flow import Tracer, chain_calls, chain_calls_ip
-from vlib.mir import callee_name, op_place, strip_generics
+from vlib.mir import callee_name, op_local, op_place, strip_generics
 
 PANIC_CALLS = {
     "std::option::Option::unwrap": "unwrap", "std::option::Option::expect": "expect",
@@ -75,8 +75,48 @@ def panic_sources(f):
                 g = t.get("generics", [])
                 if any("RangeFull" in x for x in g):
                     continue
+                if _index_guarded(f, b, t):
+                    continue          # `if i >= v.len() { return .. }` / `if i < v.len() { v[i] .. }`: the access cannot be out of range
                 out.append((b, "index", "%s<%s>" % (decl.split("::")[-1], ",".join(g[-1:]))))
     return out
+
+
+def _index_guarded(f, b, t):
+    """the indexing call at b is dominated by an edge that says index < len(the same vector)"""
+    from vlib.flow import Expr, expr_strip_blocks, edge_label, ref_place
+    if len(t["args"]) < 2:
+        return False
+    ex = Expr(f)
+    idx = expr_strip_blocks(ex.of_operand(t["args"][1]))
+    vec = ref_place(f, t["args"][0])
+    for s_ in f.live_blocks():
+        if f.term(s_)["t"] != "switch" or not f.dominates(s_, b):
+            continue
+        for tgt in f.succ(s_):
+            if not (tgt == b or f.dominates(tgt, b)):
+                continue
+            for lab in edge_label(f, s_, tgt):
+                if lab["kind"] != "cmp":
+                    continue
+                for a_, b_, lt in ((lab["a"], lab["b"], (lab["op"] == "Lt" and lab["truth"]) or (lab["op"] == "Ge" and not lab["truth"])),
+                                   (lab["b"], lab["a"], (lab["op"] == "Gt" and lab["truth"]) or (lab["op"] == "Le" and not lab["truth"]))):
+                    if not lt or expr_strip_blocks(ex.of_operand(a_)) != idx:
+                        continue
+                    # the other side: len() of the vector that is indexed
+                    lb = op_local(b_)
+                    seen = 0
+                    while lb is not None and seen < 6:
+                        seen += 1
+                        ds = [d for d in f.defs().get(lb, []) if not f.is_cleanup(d[0])]
+                        if len(ds) != 1:
+                            break
+                        if ds[0][1] is None:
+                            if strip_generics(callee_name(ds[0][2])).endswith("::len") and ref_place(f, ds[0][2]["args"][0]) == vec and vec is not None:
+                                return True
+                            break
+                        rv = ds[0][2]["rv"]
+                        lb = op_local(rv["a"][0]) if rv["r"] in ("use", "cast") else None
+    return False
 
 
 def fresh_slot_unwraps(F, D):
@@ -113,9 +153,9 @@ def fresh_slot_unwraps(F, D):
                 names = chain_calls(f, t["args"][0])
                 roots = tr.roots_of_operand(t["args"][0])
                 from_self = any(r.kind == "param" and r.id == 1 for r in roots) or any(
-                    r.kind == "call" and r.block is not None and strip_generics(r.id) in ("std::cell::RefCell::take", "std::mem::take") and
+                    r.kind == "call" and r.block is not None and strip_generics(r.id) in ("std::cell::RefCell::take", "std::mem::take", "std::mem::replace", "std::cell::RefCell::replace") and
                     any(x.kind == "param" and x.id == 1 for x in tr.roots_of_operand(f.term(r.block)["args"][0])) for r in roots)
-                if ("std::option::Option::take" in names or "std::cell::RefCell::take" in names or "std::mem::take" in names) and from_self:
+                if ("std::option::Option::take" in names or "std::cell::RefCell::take" in names or "std::mem::take" in names or "std::mem::replace" in names or "std::cell::RefCell::replace" in names) and from_self:
                     out[(f.path, b)] = "value is freshly constructed with Some(..) (%d constructors) and converted once" % n_ctor
     return out
 
